@@ -46,12 +46,15 @@ def cloud_tables():
         valid_machine_types,
     )
 
+    from batch.cloud.gcp.resource_utils import machine_type_to_gpu_num
+
     machines = []
     for cloud in CLOUDS:
         for name in valid_machine_types(cloud):
             cores, mem = machine_type_to_cores_and_memory_bytes(cloud, name)
             hi, lo = limbs(mem)
-            machines.append({"cloud": cloud, "name": name, "cores": cores, "mem_mib": hi, "mem_rem": lo})
+            machines.append({"cloud": cloud, "name": name, "cores": cores, "mem_mib": hi, "mem_rem": lo,
+                             "gpus": machine_type_to_gpu_num(name) if cloud == "gcp" else 0})
     known = {(m["cloud"], m["name"]) for m in machines}
     workers = []
     for cloud in CLOUDS:
@@ -143,3 +146,32 @@ def render_cpu(mcpu, variant=0):
         s = f"{mcpu / 1000:.3f}".rstrip("0")
         forms = [s, f"{mcpu}m", s + "0", s[1:] if s.startswith("0.") else s]
     return forms[variant % len(forms)]
+
+
+def parallel_verdict(wd, module, env, cases_key, lines, out_key, nchunks, spec_dirs=("fn",)):
+    """Judge `lines` (ndjson case lines) with the ASSUME-only TLA+ module `module`, split round-robin over several
+    TLC processes (constant evaluation is single threaded).  Every process gets its own directory, its own share
+    of the cases (env[cases_key]) and writes its own verdict (env[out_key]).
+    Returns [(indices, verdict_dict)]: indices[j] is the position in `lines` of the chunk's (j+1)-th case line."""
+    import concurrent.futures as cf
+
+    from vlib import tlc
+
+    nchunks = max(1, min(nchunks, len(lines)))
+    jobs = []
+    for k in range(nchunks):
+        idx = list(range(k, len(lines), nchunks))
+        d = tlc.prepare_dir(wd / f"verdict{k}", list(spec_dirs))
+        (d / "cases.ndjson").write_text("".join(lines[i] if lines[i].endswith("\n") else lines[i] + "\n" for i in idx))
+        e = dict(env)
+        e[cases_key] = d / "cases.ndjson"
+        e[out_key] = d / "verdict.json"
+        jobs.append((idx, d, e))
+
+    def one(job):
+        idx, d, e = job
+        tlc.evaluate(d, module, env=e, heap="3g", timeout=3000)
+        return idx, json.loads((d / "verdict.json").read_text())
+
+    with cf.ThreadPoolExecutor(max_workers=len(jobs)) as ex:
+        return list(ex.map(one, jobs))
